@@ -330,6 +330,9 @@ int vs_run(void) {
         if (waited_ms >= g_watchdog_ms) { stuck = true; break; }
       } else waited_ms = 0;
     }
+    // a thread keeps coming back to the same spin loop after every forced yield: same treatment as a thread that never
+    // reaches a scheduling point (a fixed-priority policy may be starving the thread it waits for)
+    if (g_livelock.load()) stuck = true;
     if (stuck) {
       // stop serialising: everybody runs
       g_freerun.store(1, std::memory_order_release);
@@ -346,7 +349,6 @@ int vs_run(void) {
       rc = all_done ? 0 : 3;
       break;
     }
-    if (g_livelock.load()) { rc = 4; break; }   // a thread keeps spinning: every forced yield came back to the same loop
     // collect
     int runnable[MAXT], nr = 0, ndone = 0, nblocked = 0, nstalled = 0;
     for (;;) {
